@@ -207,7 +207,7 @@ fn graph_case(item: u64, rng: &mut Rng, acc: &mut Acc, emax: usize) {
             } else {
                 acc.violate(item, "wrong_edge_selected", "edge:wrong_edge", detail(json!({"observed_edge": got, "observed_order": order, "near_boundary": near})));
             }
-            if item < 1 && class == "interior" {
+            if acc.samples.is_empty() {
                 acc.sample(json!({"graph": su.g.describe(), "subgraph_edges": mask_edges(gm, ne), "u": ut, "expected_edge": expected, "observed_edge": got}));
             }
         }
